@@ -126,7 +126,7 @@ Definition trim_left (seg : segment) (s : sock) : Z * bytes :=
 Definition data_phase (seg : segment) (received_fin : bool) (s : sock) (seq1 : Z) (data1 : bytes) : M (sflag * bool) :=
   let slen := len (g_data seg) in
   let sflags0 := if negb (g_seq seg =? rcv_nxt s) then sfDuplicateAck
-                 else if negb (slen =? 0) then (if ack_delay s =? 0 then sfImmediateAck else sfDelayedAck)
+                 else if negb (slen =? 0) then (if (ack_delay s =? 0) || received_fin then sfImmediateAck else sfDelayedAck)
                  else if received_fin then sfImmediateAck else sfNone in
   let avail := rb_remaining s in
   let data2 :=
